@@ -345,7 +345,7 @@ def subbuilder_reads_like_builder(repo, run):
         import os as _os
         f.externals = {'pathlib.Path': pathlib.Path, 'os.PathLike': _os.PathLike}
         f.extcalls = {'yaml.parse': lambda src, *a, **k: (parsed.append(src), ['DOC'])[1], 'parse': lambda src, *a, **k: (parsed.append(src), ['DOC'])[1],
-                      'open': lambda name, mode='r': Obj('file', 'TextIO'), 'os.path.expanduser': lambda x: x, 'os.path.isfile': lambda x: True, 'os.path.exists': lambda x: True,
+                      'open': lambda name, mode='r', **open_options: Obj('file', 'TextIO'), 'os.path.expanduser': lambda x: x, 'os.path.isfile': lambda x: True, 'os.path.exists': lambda x: True,
                       'os.path.abspath': lambda x: posixpath.normpath(posixpath.join('/cwd', x)), 'os.path.normpath': posixpath.normpath, 'os.path.realpath': lambda x: posixpath.normpath(posixpath.join('/cwd', x)),
                       'os.fspath': lambda x: str(x), 'os.getcwd': lambda: '/cwd', 'os.path.join': posixpath.join, 'os.path.dirname': posixpath.dirname, 'os.path.isabs': posixpath.isabs,
                       'os.path.normcase': lambda x: x, 'os.path.basename': posixpath.basename}
